@@ -16,6 +16,10 @@ func (e *Env) Define(symbol string, value interface{}) error {
 	return e.DefineValue(symbol, reflect.ValueOf(value))
 }
 
+// errUnexportedValue refuses a reflect.Value that was read out of an unexported struct field:
+// it cannot be handed out again (Interface would panic).
+var errUnexportedValue = fmt.Errorf("value obtained from an unexported field cannot be bound")
+
 // DefineValue defines/sets reflect value to symbol in current scope.
 func (e *Env) DefineValue(symbol string, value reflect.Value) error {
 	if strings.Contains(symbol, ".") {
@@ -24,6 +28,9 @@ func (e *Env) DefineValue(symbol string, value reflect.Value) error {
 	if !value.IsValid() {
 		// the zero reflect.Value stands for nil, as in Define(symbol, nil)
 		value = NilValue
+	}
+	if !value.CanInterface() {
+		return errUnexportedValue
 	}
 	e.rwMutex.Lock()
 	if e.values == nil {
@@ -68,6 +75,9 @@ func (e *Env) SetValue(symbol string, value reflect.Value) error {
 		// the zero reflect.Value stands for nil, as in Set(symbol, nil)
 		value = NilValue
 	}
+	if !value.CanInterface() {
+		return errUnexportedValue
+	}
 	e.rwMutex.Lock()
 	if _, ok := e.values[symbol]; ok {
 		e.values[symbol] = value
@@ -87,6 +97,10 @@ func (e *Env) SetValue(symbol string, value reflect.Value) error {
 // Get returns interface value from the scope where symbol is first found.
 func (e *Env) Get(symbol string) (interface{}, error) {
 	rv, err := e.GetValue(symbol)
+	if err == nil && !rv.CanInterface() {
+		// only a lookup object can answer such a value: bindings refuse it
+		return nil, errUnexportedValue
+	}
 	return rv.Interface(), err
 }
 
